@@ -6,7 +6,8 @@ import conc
 import driver
 
 PROPERTIES_FILE = "Properties/Properties_C05_sync.v"
-COQ_DEPS = ["Proofs/SyncWait_proofs.vo", "Proofs/SyncEdges_proofs.vo", "Proofs/SyncWait_example.vo"]
+COQ_DEPS = ["Proofs/SyncWait_proofs.vo", "Proofs/SyncEdges_proofs.vo", "Proofs/SyncWait_example.vo",
+            "Proofs/SyncOrder_proofs.vo", "Proofs/SyncOrder_example.vo"]
 GEN_MODULES = ["Gen_dqstate", "Gen_lanesites", "Gen_once", "Gen_group", "Gen_sema"]
 LEVEL = "proof"
 TRUSTED = [
@@ -26,7 +27,7 @@ TRUSTED = [
 ]
 ASSUMPTIONS = ["fair scheduling for the liveness-as-invariant clause", "x86-64 TSO for the hardware half of the visibility edges"]
 
-IMPORTS = ["Word", "Conc", "Gen_consts", "Gen_dqstate", "Gen_lanesites", "SyncWait"]
+IMPORTS = ["Word", "Conc", "Gen_consts", "Gen_dqstate", "Gen_lanesites", "SyncWait", "SyncOrder"]
 OFFS = {1: 0, 2: 8, 3: 16}
 
 
@@ -70,6 +71,51 @@ def coq_conform_big(name, traces, seg=1200, per_file=45000):
         nev += len(tr)
     flush()
     return out
+
+
+def overtake(exe, seed):
+    """the fixed overtake schedule (harness mix 10): API oracle + the whole run, globally ordered, replayed through the
+    model in Coq (SyncOrder.xreplay) with the tail-tested fast path (tstep) and with the old one (tstep_old)"""
+    text, rc = run_harness(exe, seed, 0, 0, 0, 0, 10)
+    label = "overtake/seed%d" % seed
+    fails, traces, st = analyse(text, label)
+    for x in fails:
+        x["args"] = [seed, 0, 0, 0, 0, 10]
+    info = {}
+    for l in text.split("\n"):
+        if l.startswith("OT "):
+            for tok in l.split()[1:]:
+                k, _, v = tok.partition("=")
+                info[k] = int(v)
+    evs = sorted((e for (_, tr, _) in traces for e in tr), key=lambda e: e.seq)
+    ths = sorted({e.tid & 0x3fffffff for e in evs})
+    body, parts = [], []
+    for j in range(0, max(len(evs), 1), 400):
+        body.append("Definition g%d : list (Z * event) := [%s]." % (j // 400, "; ".join(
+            "(%d, %s)" % (e.tid & 0x3fffffff, e.coq()) for e in evs[j:j + 400])))
+        parts.append("g%d" % (j // 400))
+    body.append("Definition g : list (Z * event) := %s." % " ++ ".join(parts))
+    for ts in ("tstep", "tstep_old"):
+        body.append("Eval vm_compute in (let '(i, okb) := xreplay %s %s (init_state, h0) g 0 in [i; if okb then 1 else 0])."
+                    % (ts, driver.zlist(ths)))
+    ok, vals, raw = driver.coq_eval("c05s_overtake_%d" % seed, IMPORTS, "\n".join(body) + "\n", timeout=900)
+    if not ok or len(vals) != 2:
+        raise RuntimeError("coq replay of the overtake schedule failed: " + raw[-2000:])
+    new, old = driver.ints(vals[0]), driver.ints(vals[1])
+    mism = []
+    if new[0] != -1 or new[1] != 1:
+        i = new[0]
+        lo = max(0, i - 10)
+        mism.append({"what": "the recorded overtake schedule (worker about to unlock after an empty list, first enqueuer stalled "
+                             "after its tail exchange, second enqueuer returns without wakeup, then dispatch_sync by the same thread) "
+                             "is not a run of the model with the tail test in the fast path (SyncWait.tstep, S_ftail)",
+                     "detail": {"run": label, "rejected_at": i, "order_ok": new[1], "schedule": info,
+                                "old_fast_path_model": {"accepts": old[0] == -1, "order_ok": old[1],
+                                                        "reading": "accepted by SyncWait.tstep_old with order_ok = 0: the library behaves "
+                                                                   "like the model WITHOUT the tail test (libdispatch before 43b9c73)"
+                                                                   if old[0] == -1 and old[1] == 0 else ""},
+                                "around": ["t%d %s" % (e.tid & 0x3fffffff, e.brief()) for e in evs[lo:i + 3]] if i >= 0 else []}})
+    return fails, mism, traces, st, info, len(evs), label
 
 
 def build():
@@ -209,6 +255,23 @@ def correspond(ctx):
         fails += f
         nitems += st.get("items", 0)
         dist["retarget_scenario_items"] = dist.get("retarget_scenario_items", 0) + st.get("items", 0)
+    # the fixed overtake schedule: API oracle, per-thread conformance and whole-run replay
+    reached = 0
+    for j in range(3 if ctx.tier == "quick" else 6):
+        f, m, tr, st, info, nge, label = overtake(exe, ctx.seed * 1000 + 700 + j)
+        fails += f
+        mism += m
+        nitems += st.get("items", 0)
+        alltr += [(sv, t, thr, label) for (sv, t, thr) in tr]
+        reached += info.get("schedule_reached", 0)
+        dist["overtake_schedule_runs"] = dist.get("overtake_schedule_runs", 0) + 1
+        dist["overtake_whole_run_events_replayed"] = dist.get("overtake_whole_run_events_replayed", 0) + nge
+        if reached >= (1 if ctx.tier == "quick" else 2) and not f and not m:
+            break
+    dist["overtake_schedule_reached"] = reached
+    if not reached:
+        mism.append({"what": "the overtake schedule was never reached (the holds in the hook did not produce the idle word with "
+                             "queued items): the scenario no longer exercises the tail test", "detail": {}})
     res = coq_conform_big("c05s_conf", [(sv, t) for (sv, t, _, _) in alltr])
     nev = 0
     for (i, idle), (sv, t, thr, label) in zip(res, alltr):
@@ -237,8 +300,12 @@ def correspond(ctx):
                     "marks are recorded per thread and each thread's whole trace is replayed through SyncWait.tstep (tau-closed) inside "
                     "Coq; API-level oracle on the same runs: return stamp after the item's end stamp, run count exactly one, overlap "
                     "counter of the serial queue, check-summed plain payloads (submitter -> item, item -> next item, item -> caller "
-                    "after return); evaluations = recorded events replayed; distinct = distinct control-flow shapes of calls / drain "
-                    "sessions",
+                    "after return); order oracle for any mix of submission kinds (clients also submit dispatch_async_f items): no item "
+                    "starts before the previous item of the same thread has finished, and (post-hoc on the stamps) before every item "
+                    "whose call had returned before its own call began has finished; the fixed overtake schedule of libdispatch 43b9c73 "
+                    "(two threads held in the hook) recorded and replayed as ONE globally ordered run through the model in Coq "
+                    "(SyncOrder.xreplay: taus searched), which must accept it with order_ok; evaluations = recorded events replayed; "
+                    "distinct = distinct control-flow shapes of calls / drain sessions",
             "samples": samples, "distribution": dist, "traces_validated_against_impl": len(alltr), "items_judged": nitems,
             "mismatches": mism[:20], "failures": fails[:20]}
 
